@@ -351,7 +351,7 @@ func (w *World) typeTag(t types.Type) int {
 func (w *World) boxFn(t types.Type, sort string) string {
 	tag := w.typeTag(t)
 	fn := fmt.Sprintf("box.%d", tag)
-	w.declareOnce(fn, fmt.Sprintf("(declare-fun %s (%s) Int)\n(declare-fun unbox.%d (Int) %s)\n(assert (forall ((x %s)) (! (and (> (%s x) 0) (= (dyntype (%s x)) %d) (= (unbox.%d (%s x)) x)) :pattern ((%s x)))))", fn, sort, tag, sort, sort, fn, fn, tag, tag, fn, fn))
+	w.declareOnce(fn, fmt.Sprintf("(declare-fun %s (%s) Int)\n(declare-fun unbox.%d (Int) %s)\n(assert (forall ((x %s)) (! (and (> (%s x) 0) (= (dyntype (%s x)) %d) (= (unbox.%d (%s x)) x)) :pattern ((%s x)))))\n(assert (forall ((y Int)) (! (=> (and (not (= y 0)) (= (dyntype y) %d)) (= (%s (unbox.%d y)) y)) :pattern ((unbox.%d y)))))", fn, sort, tag, sort, sort, fn, fn, tag, tag, fn, fn, tag, fn, tag, tag))
 	return fn
 }
 
